@@ -24,7 +24,7 @@
 EXTENDS CeltDecState, Json, IOUtils, TLC
 
 CONSTANTS BoundUp,     \* 1/100 dB: a concealed call may exceed the loudest of the last RecentN decoded calls by at most this
-          MonoTol,     \* 1/100 dB: within one concealment phase the level may rise by at most this from call to call (drift)
+          MonoTol,     \* (unused: a call-to-call monotonicity clause was dropped - 5 ms pieces of click signals rise by > 30 dB inside the pitch phase)
           RecentN
 
 VARIABLES cur, md, me, aux, tseen
@@ -33,7 +33,7 @@ vars == <<cur, md, me, aux, tseen>>
 Tr == ndJsonDeserialize(IOEnv.TRACE)
 
 E0 == [f \in DOMAIN EClearedI |-> EClearedI[f]]
-Aux0 == [efr |-> <<0, 0>>, er |-> 0, eq |-> 0, epp |-> 0, epg |-> 0, ept |-> 0, lv |-> <<>>, phase |-> "none", pcb |-> 0, fresh |-> FALSE]
+Aux0 == [efr |-> <<0, 0>>, er |-> 0, eq |-> 0, epp |-> 0, epg |-> 0, ept |-> 0, lv |-> <<>>, phase |-> "none", pcb |-> 0, fresh |-> FALSE, silkE |-> FALSE]
 
 ObsD(e) == [rng |-> <<e.rh, e.rl>>, err |-> e.err, lpi |-> e.lpi, ld |-> e.ld, skip |-> e.skip, pp |-> e.pp, ppo |-> e.ppo, pg |-> e.pg, pgo |-> e.pgo,
             pt |-> e.pt, pto |-> e.pto, fold |-> e.fold, start |-> e.start, end |-> e.end, sc |-> e.sc, ds |-> e.ds, ch |-> e.ch]
@@ -93,23 +93,25 @@ StepDec(e) ==
                   ELSE Conceal(PrepPlc(md, mode), T(e.kind = 2, "fecAsPlc") \cup T(e.n \notin {1, 2, 4, 8}, "plcOdd"), e.n, e.fz, o.lpi)
       dd == DiffD(o, run.d) \cup T("BADHDR" \in run.tg, "hdr")
       concealed == e.kind # 0
+      \* SILK-only frames (an encoder forced to hybrid falls back to them at low rates) and what follows them are DecOp's domain
+      oos == (e.kind = 0 /\ e.hy = 2) \/ e.pm = 2
       \* real encoder against real decoder, on a delivered packet
       mirrorOK == (e.kind # 0) \/ (e.pg = aux.epg /\ (e.pg # 0 => (e.pp = aux.epp /\ e.pt = aux.ept)))
       lock == <<e.frh, e.frl>> = aux.efr /\ e.r = aux.eq * e.u
       phase == IF ~concealed THEN "none" ELSE IF e.fold = 1 THEN "pitch" ELSE "noise"
-      props == T(e.kind = 0 /\ ~mirrorOK /\ ~lock, "C02.lockStep")
+      props == T(e.kind = 0 /\ ~oos /\ ~mirrorOK /\ ~lock, "C02.lockStep")
                \cup T(concealed /\ (e.r # expect \/ e.fin # 1), "C09.duration")
                \cup T(concealed /\ e.pm # 3 /\ ~aux.fresh /\ Len(aux.lv) > 0 /\ e.cb > MaxSeq(aux.lv) + BoundUp, "C09.bounded")
                \cup T(e.tw = 1 /\ e.tws # 1, "C12.resetEqualsFresh")
-      drift == dd \cup T(e.kind = 0 /\ ~mirrorOK /\ lock, "mirror")
+      drift == IF oos THEN {} ELSE
+               dd \cup T(e.kind = 0 /\ ~mirrorOK /\ lock, "mirror")
                \cup T(concealed /\ (e.frh # 0 \/ e.frl # 0), "plcRangeZero")
-               \cup T(concealed /\ phase = aux.phase /\ e.cb > aux.pcb + MonoTol /\ e.cb > 0 - 9000, "fadeMonotone")
   IN /\ (IF props = {} THEN TRUE ELSE Rej("prop", props))
      /\ (IF drift = {} THEN TRUE ELSE Rej("drift", drift))
      /\ md' = o
      /\ aux' = [aux EXCEPT !.lv = IF e.kind = 0 /\ e.r > 0 THEN PushLv(aux.lv, e.cb) ELSE aux.lv, !.phase = phase, !.pcb = e.cb,
                            !.fresh = IF e.kind = 0 THEN FALSE ELSE aux.fresh]
-     /\ tseen' = IF dd = {} THEN tseen \cup run.tg \cup T(e.tw = 1, "twinDec") \cup T(e.kind = 0 /\ e.pg # 0 /\ e.pgo # 0 /\ e.pp # e.ppo, "oldDiffers")
+     /\ tseen' = IF oos THEN tseen \cup {"outOfScopeSilk"} ELSE IF dd = {} THEN tseen \cup run.tg \cup T(e.tw = 1, "twinDec") \cup T(e.kind = 0 /\ e.pg # 0 /\ e.pgo # 0 /\ e.pp # e.ppo, "oldDiffers")
                                    \cup T(e.kind = 0 /\ aux.epg = 0 /\ aux.epp > MinPeriod, "offKeepsPeriod")
                  ELSE tseen
      /\ UNCHANGED me
@@ -154,16 +156,17 @@ StepEnc(e) ==
         \cup T(nf > 0 /\ e.ity \notin 0..NbEBands, "e.intensityRange")
         \cup T(nf = 1 /\ <<e.erh, e.erl>> # <<e.frh, e.frl>>, "e.rngIsFinalRange")
       props == T(e.tw = 1 /\ e.same # 1, "C12.resetEqualsFresh")
+      oos == e.hy = 2 \/ aux.silkE          \* a SILK-only frame, or the first frame after one (the CELT encoder is reset and pre-filled)
   IN /\ (IF props = {} THEN TRUE ELSE Rej("prop", props))
-     /\ (IF names = {} THEN TRUE ELSE Rej("drift", names))
+     /\ (IF names = {} \/ oos THEN TRUE ELSE Rej("drift", names))
      /\ me' = ObsE(e, IF nf > 0 /\ e.lm >= 0
                       THEN EncodeFrame(me, e.lm, [pf |-> last.pf, period |-> last.period, qg |-> last.qg, pfree |-> e.epp, transient |-> last.transient, tgd |-> 0,
                                                    coded |-> e.lcb, td |-> e.td, sd |-> e.sd, ity |-> e.ity, vr |-> e.vr, vd |-> e.vd, di |-> e.di, ta |-> e.ta,
                                                    hf |-> e.hf, rng |-> <<e.erh, e.erl>>, silence |-> last.silence],
                                        [start |-> 0, C |-> e.esc, lfe |-> FALSE, cx |-> e.cx, vbrOn |-> vbrOn, cv |-> cv, hybrid |-> ~celt])
                       ELSE me)
-     /\ aux' = [aux EXCEPT !.efr = <<e.frh, e.frl>>, !.er = e.r, !.eq = e.q, !.epp = e.epp, !.epg = e.epg, !.ept = e.ept]
-     /\ tseen' = IF names = {} THEN tseen \cup T(vbrOn /\ cv, "cvbr") \cup T(vbrOn /\ ~cv, "vbr") \cup T(~vbrOn, "cbr") \cup T(e.tw = 1, "twinEnc")
+     /\ aux' = [aux EXCEPT !.efr = <<e.frh, e.frl>>, !.er = e.r, !.eq = e.q, !.epp = e.epp, !.epg = e.epg, !.ept = e.ept, !.silkE = (e.hy = 2)]
+     /\ tseen' = IF oos THEN tseen \cup {"outOfScopeSilk"} ELSE IF names = {} THEN tseen \cup T(vbrOn /\ cv, "cvbr") \cup T(vbrOn /\ ~cv, "vbr") \cup T(~vbrOn, "cbr") \cup T(e.tw = 1, "twinEnc")
                                     \cup T(e.ct >= 2, "consecTransient") \cup T(me.lcb # 0 /\ e.lcb # me.lcb, "lcbSlew") \cup T(e.vr > 0, "reservoirFilled")
                                     \cup T(nf > 0 /\ celt /\ first.pf = 1 /\ first.tapset # 0, "tapsetFromDecision") \cup T(e.vc = VcSat, "vcSaturated")
                  ELSE tseen
